@@ -9,6 +9,8 @@ import (
 	"context"
 	"fmt"
 	"github.com/shutter-network/rolling-shutter/rolling-shutter/gnosisaccessnode"
+	"github.com/shutter-network/rolling-shutter/rolling-shutter/keyperimpl/gnosis/gnosisssztypes"
+	"github.com/shutter-network/rolling-shutter/rolling-shutter/medley/identitypreimage"
 	"os"
 	"sort"
 
@@ -215,6 +217,11 @@ func runCase(env *vlib.Env, idx int, rep *vlib.Reporter) {
 	if p.flavour == gossipnet.Gnosis {
 		nid = 1 + r.Intn(4)
 	}
+	if idx%5 == 3 {
+		// the request fills a message completely: exactly MaxNumKeysPerMessage identities
+		w.MaxKeys = uint64(nid)
+		rep.Obs("cases_with_requests_of_exactly_the_maximal_message_size", 1)
+	}
 	net, err := newNetwork(ctx, w, p.flavour, nid, r.Split())
 	if err != nil {
 		rep.Inconclusive(err.Error())
@@ -259,6 +266,10 @@ func runCase(env *vlib.Env, idx int, rep *vlib.Reporter) {
 			local[x] = o
 		}
 		mode := []string{"immediate", "deferred", "random"}[r.Intn(3)]
+		net.pre = s%3 == 2
+		if net.pre {
+			rep.Obs("schedules_after_an_earlier_overlapping_request", 1)
+		}
 		if !net.run(ctx, rep, set, local, r, mode, false) {
 			return
 		}
@@ -268,7 +279,12 @@ func runCase(env *vlib.Env, idx int, rep *vlib.Reporter) {
 // ---- network --------------------------------------------------------------------------------
 
 type network struct {
-	repeated bool // the identity list contains one preimage twice
+	// pre: every triggered node has answered an earlier, overlapping request before (the previous
+	// slot with the same queued transaction for Gnosis, the first identity alone otherwise); that
+	// earlier shares message reached nobody
+	pre      bool
+	txIDs    [][]byte // gnosis: identity preimages of the queued transactions, in queue order
+	repeated bool     // the identity list contains one preimage twice
 	prio     []int
 	w        *gossipnet.World
 	f        gossipnet.Flavour
@@ -320,6 +336,7 @@ func newNetwork(ctx context.Context, w *gossipnet.World, f gossipnet.Flavour, ni
 				}
 			}
 			ids = append(ids, append(append([]byte{}, pfx...), sender...))
+			net.txIDs = append(net.txIDs, append(append([]byte{}, pfx...), sender...))
 		}
 		ids = append(ids, refimpl.SlotIdentity(net.slot))
 		sort.Slice(ids, func(i, j int) bool { return bytes.Compare(ids[i], ids[j]) < 0 })
@@ -651,6 +668,48 @@ func (net *network) run(ctx context.Context, rep *vlib.Reporter, set []int, loca
 	} else {
 		rep.Obs("schedules_below_threshold_everywhere", 1)
 	}
+	if net.f == gossipnet.Gnosis {
+		// every slot signature a keyper has filed is a signature of the keyper it is filed under over
+		// the slot and transaction pointer it is filed under (and this slot's identity list)
+		// a keyper triggered late (after a keys message moved its pointer) signs the list that starts
+		// at its pointer: the list for pointer p is the slot identity and the queued transactions from p on
+		listFor := func(p int64) []identitypreimage.IdentityPreimage {
+			l := [][]byte{refimpl.SlotIdentity(net.slot)}
+			for k := p; k >= 0 && k < int64(len(net.txIDs)); k++ {
+				l = append(l, net.txIDs[k])
+			}
+			sort.Slice(l, func(i, j int) bool { return bytes.Compare(l[i], l[j]) < 0 })
+			var pre []identitypreimage.IdentityPreimage
+			for _, id := range l {
+				pre = append(pre, identitypreimage.IdentityPreimage(id))
+			}
+			return pre
+		}
+		for x, nd := range net.nodes {
+			for _, row := range nd.DBNode.DB.Snapshot().Rows("slot_decryption_signatures") {
+				if uint64(row["slot"].(int64)) != net.slot || row["eon"].(int64) != net.w.CfgIndex {
+					continue
+				}
+				k := int(row["keyper_index"].(int64))
+				if k < 0 || k >= net.w.N {
+					rep.Violationf("stored-slot-signature:"+string(net.f), map[string]any{"schedule": desc, "node": x, "keyper_index": k}, "node %d filed a slot signature under keyper index %d", x, k)
+					return false
+				}
+				data, err := gnosisssztypes.NewSlotDecryptionSignatureData(net.w.InstanceID, uint64(net.w.CfgIndex), net.slot, uint64(row["tx_pointer"].(int64)), listFor(row["tx_pointer"].(int64)))
+				if err != nil {
+					rep.Inconclusive("signature data: " + err.Error())
+					return false
+				}
+				ok, err := data.CheckSignature(row["signature"].([]byte), net.w.Keypers.Addrs[k])
+				rep.Obs("stored_slot_signatures_checked", 1)
+				if err != nil || !ok {
+					rep.Violationf("stored-slot-signature:"+string(net.f), map[string]any{"schedule": desc, "node": x, "keyper_index": k, "tx_pointer": row["tx_pointer"]},
+						"node %d holds a slot signature filed under keyper %d, slot %d, transaction pointer %v that is not that keyper's signature over these values", x, k, net.slot, row["tx_pointer"])
+					return false
+				}
+			}
+		}
+	}
 	for _, nd := range net.nodes {
 		if u := nd.DBNode.CheckUnsupported(); u != "" {
 			rep.Inconclusive(u)
@@ -664,22 +723,65 @@ func (net *network) run(ctx context.Context, rep *vlib.Reporter, set []int, loca
 func (net *network) trigger(ctx context.Context, x int) ([]gossipnet.Sent, error) {
 	nd := net.nodes[x]
 	block := uint64(net.w.Activation + 1)
+	covers := func(outs []gossipnet.Sent, ids [][]byte) error {
+		// the shares message answers the whole request
+		for i := range outs {
+			if sm, ok := outs[i].Msg.(*p2pmsg.DecryptionKeyShares); ok {
+				if len(sm.Shares) != len(ids) {
+					return fmt.Errorf("the shares message carries %d shares for a request of %d identities", len(sm.Shares), len(ids))
+				}
+				for j, sh := range sm.Shares {
+					if !bytes.Equal(sh.IdentityPreimage, ids[j]) {
+						return fmt.Errorf("share %d of the shares message is for another identity than the request names", j)
+					}
+				}
+			}
+		}
+		return nil
+	}
 	if net.f == gossipnet.Gnosis {
 		ks := net.w.Keypers.KeyperSet(net.w.CfgIndex, net.w.Activation, int32(net.w.T))
-		if err := nd.GnosisKeyper.VerifTriggerDecryption(ctx, net.slot, int64(block), ks); err != nil {
+		slots := []uint64{net.slot}
+		if net.pre && net.slot > 0 {
+			slots = []uint64{net.slot - 1, net.slot}
+		}
+		var outs []gossipnet.Sent
+		for _, slot := range slots {
+			if err := nd.GnosisKeyper.VerifTriggerDecryption(ctx, slot, int64(block), ks); err != nil {
+				return nil, err
+			}
+			trs := nd.DrainTriggers()
+			if len(trs) != 1 {
+				return nil, fmt.Errorf("%d triggers", len(trs))
+			}
+			var ids [][]byte
+			for _, id := range trs[0].IdentityPreimages {
+				ids = append(ids, []byte(id))
+			}
+			var err error
+			outs, err = nd.TriggerCore(ctx, trs[0].BlockNumber, ids)
+			if err != nil {
+				return nil, err
+			}
+			if err := covers(outs, ids); err != nil {
+				return nil, err
+			}
+		}
+		return outs, nil
+	}
+	if net.pre && len(net.ids) >= 2 {
+		if _, err := nd.TriggerCore(ctx, block, net.ids[:1]); err != nil {
 			return nil, err
 		}
-		trs := nd.DrainTriggers()
-		if len(trs) != 1 {
-			return nil, fmt.Errorf("%d triggers", len(trs))
-		}
-		var ids [][]byte
-		for _, id := range trs[0].IdentityPreimages {
-			ids = append(ids, []byte(id))
-		}
-		return nd.TriggerCore(ctx, trs[0].BlockNumber, ids)
 	}
-	return nd.TriggerCore(ctx, block, net.ids)
+	outs, err := nd.TriggerCore(ctx, block, net.ids)
+	if err != nil {
+		return nil, err
+	}
+	if err := covers(outs, net.ids); err != nil {
+		return nil, err
+	}
+	return outs, nil
 }
 
 var _ = kprtopics.DecryptionKeys
